@@ -15,4 +15,4 @@ Extraction "../ocaml/c02/model.ml"
   spec_eb_descriptor spec_enc_eb_descriptor spec_dec_eb_descriptor layout_names
   spec_dec_known spec_enc_known spec_known_names lookup_parse lookup_bytes
   record_at spec_dec_records append_session edit_record
-  handover_accepts ebs_of_dims assign_elems.
+  handover_accepts ebs_of_dims assign_elems writer_evlr_fields point_format_writers_sync.
